@@ -360,7 +360,8 @@ func runC20(r *Run) {
 		name string
 		f    func(string) []string
 	}{{"pong with an opaque body", c20OpaquePong}, {"keepalive with MinGzipSize(4)", c20SmallGzipKeepalive},
-		{"quiet period after a pong, short keepalive timeout", c20QuietAfterPong}, {"largest response body", c20LargestBody}} {
+		{"quiet period after a pong, short keepalive timeout", c20QuietAfterPong}, {"largest response body", c20LargestBody},
+		{"heartbeat queued behind a busy handler, then the peer goes away", c20QueuedPingPeerGone}} {
 		t, w := strings.Join(sc.f("tcp"), " | "), strings.Join(sc.f("ws"), " | ")
 		r.st.Notes = append(r.st.Notes, sc.name+" tcp: "+t, sc.name+" ws:  "+w)
 		if t != w {
@@ -373,7 +374,16 @@ func runC20(r *Run) {
 
 // c20Open: client + first peer connection for the small scripts.
 func c20Open(trans string, trace func(string), opts ...client.DialOption) (*testClient, *xconn, func()) {
+	return c20OpenPrep(trans, trace, nil, opts...)
+}
+
+var c20PeerDown func() // takes the peer of the latest c20OpenPrep away (listener and connections)
+
+func c20OpenPrep(trans string, trace func(string), prep func(*testClient), opts ...client.DialOption) (*testClient, *xconn, func()) {
 	tc := newTestClient()
+	if prep != nil {
+		prep(tc)
+	}
 	tc.cli.OnPong(func(p *protocol.Packet) {
 		var hb control.Heartbeat
 		err := proto.Unmarshal(p.Body, &hb)
@@ -407,6 +417,7 @@ func c20Open(trans string, trace func(string), opts ...client.DialOption) (*test
 		cleanup()
 		return nil, nil, nil
 	}
+	c20PeerDown = cleanup
 	return tc, x, func() {
 		func() { defer func() { recover() }(); tc.cli.Close(nil) }()
 		cleanup()
@@ -565,4 +576,33 @@ func c20LargestBody(trans string) []string {
 	}
 	out = append(out, fmt.Sprintf("reconnects=%d", tc.reconCount()))
 	return out
+}
+
+// c20QueuedPingPeerGone: the peer's heartbeat waits behind a busy push handler; meanwhile the peer goes away for good
+// (connection dropped, nothing listening any more). What the application is told must not depend on the transport.
+func c20QueuedPingPeerGone(trans string) []string {
+	var mu sync.Mutex
+	var tr []string
+	trace := func(s string) { mu.Lock(); tr = append(tr, s); mu.Unlock() }
+	tc, x, done := c20OpenPrep(trans, trace, func(tc *testClient) {
+		tc.cli.Subscribe(50, func(p *protocol.Packet) {
+			trace("push:" + string(p.Body))
+			time.Sleep(300 * time.Millisecond)
+		})
+		tc.cli.OnPing(func(p *protocol.Packet) { trace("onping:" + string(p.Body)) })
+	}, client.Keepalive(time.Hour), client.KeepaliveTimeout(2*time.Hour), client.DialTimeout(300*time.Millisecond))
+	if tc == nil {
+		return []string{"setup failed"}
+	}
+	defer done()
+	down := c20PeerDown
+	x.sendData(pushFrame(1, 50, []byte("p1")))
+	time.Sleep(40 * time.Millisecond)
+	x.ping(7, []byte("beat"))
+	time.Sleep(60 * time.Millisecond)
+	down()
+	time.Sleep(900 * time.Millisecond)
+	mu.Lock()
+	defer mu.Unlock()
+	return append([]string{}, tr...)
 }
